@@ -174,6 +174,9 @@ func (a *allocation) createPermission(perm *permission, addr net.Addr) error {
 			return err
 		}
 		perm.setState(permStatePermitted)
+		// A failed attempt (e.g. 438 Stale Nonce, which the callers retry) removed the entry:
+		// track the granted permission again, or it is never refreshed and expires at the server.
+		a.permMap.insert(addr, perm)
 	}
 
 	return nil
